@@ -150,6 +150,9 @@ pub fn render(spec: &EnumSpec) -> String {
     let mut o = String::new();
     o.push_str(&render_enum(spec, &["Debug", "strum::EnumTable"]));
     o.push_str(&render_vidx(spec, name, "vidx"));
+    if spec.variants.iter().any(|v| v.disabled) && !spec.syntax.iter().any(|x| x == "in-fn") {
+        o.push_str("#[allow(dead_code)]\n#[derive(Debug, strum::EnumTable)]\npub enum Neighbour { Nn, #[strum(disabled)] Oo, Pp }\n");
+    }
     let n = spec.variants.len();
     o.push_str(&format!("fn key(i: usize) -> {} {{\n    match i {{\n", name));
     for (i, v) in spec.variants.iter().enumerate() {
